@@ -314,7 +314,7 @@ def prod (self : Self) : (nt : NT) → P nt.Res
   | .binaryInner p r => pBinaryInner self p r
   | .castExpression => pCastExpression self
   | .unaryExpression => pUnaryExpression self
-  | .postfixExpression => pPostfixExpression self
+  | .postfixExpression ct => pPostfixExpression self ct
   | .postfixLoop e => pPostfixLoop self e
   | .primaryExpression => pPrimaryExpression self
   | .offsetofLoop n => pOffsetofLoop self n
